@@ -27,6 +27,15 @@ Theorem C27_rollback : forall (st : istate) (inp : input) (st1 : istate),
 Proof. exact rollback. Qed.
 Print Assumptions C27_rollback.
 
+(* In particular every type expression (Int, String, a named type, a class) denotes after the
+   rejected input exactly what it denoted before: a named type or class that only the rejected
+   input declared stays undefined, and the ones declared before stay defined. *)
+Theorem C27_rollback_types : forall (st : istate) (inp : input) (st1 : istate) (x : texp),
+  incr_step true st inp = (st1, Rejected) ->
+  resolve_in (c_tdefs (i_c st1)) (c_classes (i_c st1)) x = resolve_in (c_tdefs (i_c st)) (c_classes (i_c st)) x.
+Proof. exact rollback_types. Qed.
+Print Assumptions C27_rollback_types.
+
 (* ... and therefore the rest of the session is the same with or without the rejected input. *)
 Theorem C27_rejected_no_trace : forall (st : istate) (inp : input) (st1 : istate) (rest : list input),
   incr_step true st inp = (st1, Rejected) ->
